@@ -210,10 +210,12 @@ class OpRunner:
         for g in gone:
             del exp.nodes[g]
         p = pre0.nodes[ka]['parent']
-        exp.nodes[p]['children'] = [c for c in exp.nodes[p]['children'] if c != ka]
+        if p != 'none':
+            exp.nodes[p]['children'] = [c for c in exp.nodes[p]['children'] if c != ka]
         self.compare(exp, post, 'destroy(%s)' % ka)
         self.frame_check(pre0, post, set(gone) | {p}, 'destroy')
-        self.same_payload(pre0.nodes[p], post.nodes[p], 'destroy: old parent', 'C10.frame')
+        if p != 'none':
+            self.same_payload(pre0.nodes[p], post.nodes[p], 'destroy: old parent', 'C10.frame')
         self.unresolvable(dom, gone, 'destroy')
         return 'ok'
 
@@ -269,12 +271,13 @@ class OpRunner:
         (post,) = self.post_common([('A', dom)], what)
         exp = pre0.clone()
         p = pre0.nodes[ka]['parent']
-        exp.nodes[p]['children'] = [c for c in exp.nodes[p]['children'] if c != ka]
+        if p != 'none':
+            exp.nodes[p]['children'] = [c for c in exp.nodes[p]['children'] if c != ka]
         exp.nodes[kb]['children'] = exp.nodes[kb]['children'] + [ka]
         exp.nodes[ka]['parent'] = kb
         self.compare(exp, post, what)
         self.frame_check(pre0, post, {ka, p, kb}, what)
-        for k in {ka, p, kb}:
+        for k in {ka, p, kb} - {'none'}:
             self.same_payload(pre0.nodes[k], post.nodes[k], what + ': ' + str(k), 'C10.frame')
         if post.nodes[ka]['children'] != pre0.nodes[ka]['children']:
             self.fail('C10.effect', what + ': internal order of the moved subtree changed')
@@ -368,7 +371,8 @@ class OpRunner:
         moved = subtree(preS, ka)
         expS, expD = preS.clone(), preD.clone()
         p = preS.nodes[ka]['parent']
-        expS.nodes[p]['children'] = [c for c in expS.nodes[p]['children'] if c != ka]
+        if p != 'none':
+            expS.nodes[p]['children'] = [c for c in expS.nodes[p]['children'] if c != ka]
         for g in moved:
             n = expS.nodes.pop(g)
             expD.nodes[g] = n
@@ -378,7 +382,8 @@ class OpRunner:
         self.compare(expD, postD, what + ' dest')
         self.frame_check(preS, postS, set(moved) | {p}, what + ' src')
         self.frame_check(preD, postD, {kb}, what + ' dest')
-        self.same_payload(preS.nodes[p], postS.nodes[p], what + ': old parent', 'C10.frame')
+        if p != 'none':
+            self.same_payload(preS.nodes[p], postS.nodes[p], what + ': old parent', 'C10.frame')
         self.same_payload(preD.nodes[kb], postD.nodes[kb], what + ': new parent', 'C10.frame')
         present = list(preD.uids)
         for g in moved:      # BFS order = order of insertion into dest
